@@ -262,6 +262,7 @@ func c03EscapeSources() []string {
 		out = append(out, src)
 	}
 	out = append(out, "let a = `x\\`y`;\nlet b = `\\\\`;\nlet c = 'p\"q';\nlet d = \"p'q\";\n",
+		"let e = `a\\\\\\`b`;\nlet f = `\\${x}`;\nlet g = `\\\\${x}`;\nlet h = `\\$`;\nlet i = `C:\\\\\\`dir\\``;\nlet j = `${a}$`;\n",
 		"let n = 1 .toString();\nlet m = 0x1f.toString(2);\nlet k = 1.5.toFixed(1);\nlet j = [2 .valueOf()];\n")
 	return out
 }
